@@ -2,6 +2,8 @@
 """Regenerates MANIFEST.json from the table below (kept in one place so the manifest stays valid)."""
 import json
 CLAIMED = {
+ "C17": ("theorem C17_closed_form: get_length p, for every byte string p, is the stated function of (length p < 3, p[1], p[2]) and never panics; plus the oracle statement over all histories; differential correspondence on all 2^16 (byte1, byte2) pairs x several byte0 values / continuations / contexts", "§6 C17"),
+ "C19": ("theorems C19_message_type / C19_command_code / C19_completion_code for all byte values (finite sweep lifted to a quantifier, kernel-checked); correspondence exhaustive over 3 x 256 conversions", "§6 C19"),
  "C03": ("theorem C03_encoded_packet_ends_with_pec (all ops, contexts, both overflow modes) + pec = polynomial remainder mod x^8+x^2+x+1 (existence and uniqueness), Rocq kernel-checked; differential correspondence model vs /repo on every encoder and every packet length 12..262", "§6 C03"),
 }
 TODO = {}
